@@ -4,13 +4,15 @@ import HapVerif.Generated.Facts
 /-!
 # C18 — external authentication fails closed: property theorems
 
-Model: `HapVerif.C18.run fixed w hostOrder backendOrder` (Model/C18.lean) = `fullSyncAnnotations`
+Model: `HapVerif.C18.run v w hostOrder backendOrder` (Model/C18.lean) = `fullSyncAnnotations`
 restricted to `buildHostAuthExternal`, `buildBackendAuthExternal`, `buildBackendOAuth` over the
 abstract outcomes of the auth-url validation, sharing one auth-proxy bind list; `obsOf` = what the
-rendered `http-request` rules do to one path.  `fixed = false` is `buildBackendOAuth` as found,
-`fixed = true` with the precedence test on the path's own auth-url and the deny restored
-(`/verif/.build/c18-fix.patch`); the driver picks the variant from the regenerated facts
-(`currentFixed`).  Spec: `pathOk` (Model/C18.lean).
+rendered `http-request` rules do to one path.  The variant `v`: `vFound` is the code as first
+found; `oauthOwn` = `buildBackendOAuth` with the precedence test on the path's own auth-url and
+the deny restored (repo commit 4d834ab); `usedFront` = the clean-up of `setAuthExternal` keeps
+the names of frontend placed paths (`/verif/.build/c18-fix-6.patch`).  The driver reads the
+variant of the tree under test from the regenerated facts (`currentVariant`).
+Spec: `pathOk` (Model/C18.lean).
 -/
 namespace HapVerif.C18
 
@@ -66,21 +68,21 @@ example : groupsOf (fun i => if i = 1 then { alwaysDeny := true } else {}) [0, 1
 /-- for both variants, every host order, every backend order: the bind list is strictly sorted
 and a backend-path record naming `_auth_<P>` belongs to a path with an auth-url whose backend
 is what port `P` forwards to — clean-ups of an exhausted range never break this -/
-theorem run_binds_back_records (fixed : Bool) (w : World) (ho bo : List Nat) :
-    Sorted (run fixed w ho bo).binds ∧
-    ∀ i P, ((run fixed w ho bo).brec i).name = .proxy P →
-      ∃ p u, w.paths[i]? = some p ∧ p.url = .val u ∧ ⟨P, u.target⟩ ∈ (run fixed w ho bo).binds :=
-  run_inv fixed w ho bo
+theorem run_binds_back_records (v : Variant) (w : World) (ho bo : List Nat) :
+    Sorted (run v w ho bo).binds ∧
+    ∀ i P, ((run v w ho bo).brec i).name = .proxy P →
+      ∃ p u, w.paths[i]? = some p ∧ p.url = .val u ∧ ⟨P, u.target⟩ ∈ (run v w ho bo).binds :=
+  run_inv v w ho bo
 
 /-! ## fail closed -/
 
 /-- the property on the model: every path of every world, under every iteration order -/
-def FailClosed (fixed : Bool) : Prop :=
+def FailClosed (v : Variant) : Prop :=
   ∀ (w : World) (ho bo : List Nat) (i : Nat) (p : PathIn), bo.Nodup → w.paths[i]? = some p →
     p.backend ∈ bo →
-    pathOk w (run fixed w ho bo).binds p (obsOf w (run fixed w ho bo) i) = true
+    pathOk w (run v w ho bo).binds p (obsOf w (run v w ho bo) i) = true
 
-/- Full-strength statement: `theorem fail_closed : FailClosed true`.
+/- Full-strength statement: `theorem fail_closed : FailClosed vOAuth` (the current code).
    It does not hold (`fail_closed_fails` below: frontend placement); what is proved is the part
    that rests on the backend section: -/
 
@@ -91,21 +93,23 @@ own URL / through its oauth2-proxy backend with its own path, followed by deny-o
 successful — for every validation outcome, port range, mix of other paths, hosts and backends,
 and every iteration order.  Side condition: the path does not carry a non-empty auth-url with a
 placement other than `backend`. -/
-theorem fail_closed_partial (w : World) (ho bo : List Nat) (i : Nat) (p : PathIn)
+theorem fail_closed_partial (v : Variant) (hv : v.oauthOwn = true) (w : World) (ho bo : List Nat)
+    (i : Nat) (p : PathIn)
     (hbo : bo.Nodup) (hp : w.paths[i]? = some p) (hmem : p.backend ∈ bo)
     (hside : ¬ (p.url.nonEmpty = true ∧ ownPlc p ≠ .backend)) :
-    pathOk w (run true w ho bo).binds p (obsOf w (run true w ho bo) i) = true := by
+    pathOk w (run v w ho bo).binds p (obsOf w (run v w ho bo) i) = true := by
   cases hd : declared p with
   | false => simp [pathOk, hd]
   | true =>
-    obtain ⟨r1, hpost, hfin⟩ := run_brec (fixed := true) (ho := ho) hp hbo hmem
-    obtain ⟨hs, hrec⟩ := run_inv true w ho bo
-    have hrb : (obsOf w (run true w ho bo) i).rb = rulesOf (oauthRec true w p r1) := by
+    obtain ⟨r1, hpost, hfin⟩ := run_brec (v := v) (ho := ho) hp hbo hmem
+    rw [hv] at hfin
+    obtain ⟨hs, hrec⟩ := run_inv v w ho bo
+    have hrb : (obsOf w (run v w ho bo) i).rb = rulesOf (oauthRec true w p r1) := by
       unfold obsOf
       rw [hp]
       simp only
       rw [backendRules_eq _ _ (mem_backendIdxs.mpr ⟨p, hp, rfl⟩), hfin]
-    have hcov := final_rules_covered (w := w) (binds := (run true w ho bo).binds) hs hpost
+    have hcov := final_rules_covered (w := w) (binds := (run v w ho bo).binds) hs hpost
       (by
         intro P hn
         obtain ⟨p', u, hp', hu, hb⟩ := hrec i P (by rw [hfin]; exact hn)
@@ -151,23 +155,23 @@ def wSharedBackend : World :=
 /-- **`buildBackendOAuth` as found re-opens a path that a malformed auth-url had closed**: the
 record ends `AlwaysDeny=false`, no name, no rule — while without the oauth key it is denied -/
 theorem oauth_resets_deny :
-    let st := run false wBadUrlOAuth [0] [0]
+    let st := run vFound wBadUrlOAuth [0] [0]
     st.brec 0 = {} ∧ (obsOf wBadUrlOAuth st 0).rb = [] ∧
     (oracle wBadUrlOAuth st.binds [obsOf wBadUrlOAuth st 0]) = some "oauth-resets-deny-after-bad-auth-url" ∧
-    (obsOf wBadUrlOnly (run false wBadUrlOnly [0] [0]) 0).rb = [.deny] := by
+    (obsOf wBadUrlOnly (run vFound wBadUrlOnly [0] [0]) 0).rb = [.deny] := by
   decide +kernel
 
 /-- **the precedence test reads the backend-wide auth-url**: the oauth path of the second
 ingress is left without any rule -/
 theorem oauth_shared_backend_unprotected :
-    let st := run false wSharedBackend [0] [0]
+    let st := run vFound wSharedBackend [0] [0]
     (obsOf wSharedBackend st 1).rb = [] ∧
     oracle wSharedBackend st.binds [obsOf wSharedBackend st 0, obsOf wSharedBackend st 1]
       = some "oauth-shared-backend-unprotected" := by
   decide +kernel
 
 /-- the full statement fails for the code as found -/
-theorem fail_closed_old_fails : ¬ FailClosed false := by
+theorem fail_closed_old_fails : ¬ FailClosed vFound := by
   intro h
   have := h wBadUrlOAuth [0] [0] 0 _ (by decide) rfl (by decide)
   revert this
@@ -175,12 +179,12 @@ theorem fail_closed_old_fails : ¬ FailClosed false := by
 
 /-- the repaired variant protects both witnesses (deny, resp. oauth intercept) -/
 theorem fixed_repairs_witnesses :
-    (obsOf wBadUrlOAuth (run true wBadUrlOAuth [0] [0]) 0).rb = [.deny] ∧
-    (obsOf wSharedBackend (run true wSharedBackend [0] [0]) 1).rb =
+    (obsOf wBadUrlOAuth (run vOAuth wBadUrlOAuth [0] [0]) 0).rb = [.deny] ∧
+    (obsOf wSharedBackend (run vOAuth wSharedBackend [0] [0]) 1).rb =
       [.icpt (.backend "default_oauth2proxy_8080") "/oauth2/auth" "/oauth2/", .unless true "/oauth2/"] ∧
-    oracle wSharedBackend (run true wSharedBackend [0] [0]).binds
-      [obsOf wSharedBackend (run true wSharedBackend [0] [0]) 0,
-       obsOf wSharedBackend (run true wSharedBackend [0] [0]) 1] = none := by
+    oracle wSharedBackend (run vOAuth wSharedBackend [0] [0]).binds
+      [obsOf wSharedBackend (run vOAuth wSharedBackend [0] [0]) 0,
+       obsOf wSharedBackend (run vOAuth wSharedBackend [0] [0]) 1] = none := by
   decide +kernel
 
 /-! ### frontend placement: what keeps `FailClosed true` from holding -/
@@ -192,7 +196,7 @@ def wFrontBegin : World :=
 /-- the frontend rule is scoped by `{ var(req.base) -m str beg 'h0.local#/a' }`: `-m str` compares
 the whole base with the words `beg` and the key, so a request below the path is not intercepted -/
 theorem frontend_rule_misses_subpaths :
-    let st := run true wFrontBegin [0] [0]
+    let st := run vOAuth wFrontBegin [0] [0]
     (obsOf wFrontBegin st 0).r0 = [.icpt (.proxy 14415) "/auth" "", .unless false ""] ∧
     (obsOf wFrontBegin st 0).r1 = [] ∧
     oracle wFrontBegin st.binds [obsOf wFrontBegin st 0] = some "frontend-rule-misses-subpath-requests" := by
@@ -206,7 +210,7 @@ def wHostConflict : World :=
      mkPath 0 1 "h0.local#/b" "str" "h0.local#/b" (.val (uOk 2 "/check")) .frontend .absent]
 
 theorem frontend_placement_lost_on_host_conflict :
-    let st := run true wHostConflict [0] [0, 1]
+    let st := run vOAuth wHostConflict [0] [0, 1]
     st.frec 1 = none ∧ st.brec 1 = {} ∧
     oracle wHostConflict st.binds [obsOf wHostConflict st 0, obsOf wHostConflict st 1]
       = some "frontend-placement-lost-on-host-conflict" := by
@@ -221,7 +225,7 @@ def wPortReassigned : World :=
      mkPath 1 1 "h1.local#/b" "str" "h1.local#/b" (.val (uOk 2 "/check")) .backend .absent]
 
 theorem frontend_port_reassigned :
-    let st := run true wPortReassigned [0, 1] [0, 1]
+    let st := run vOAuth wPortReassigned [0, 1] [0, 1]
     st.frec 0 = some { name := .proxy 14415, authPath := "/auth" } ∧ st.binds = [⟨14415, 2⟩] ∧
     st.cleaned = true ∧
     oracle wPortReassigned st.binds [obsOf wPortReassigned st 0, obsOf wPortReassigned st 1]
@@ -234,14 +238,14 @@ def wPlacementTypo : World :=
   mkWorld 14415 14416 [mkPath 0 0 "h0.local#/a" "beg" "h0.local#/a/sub" (.val (uOk 1 "/auth")) .other oauthOk]
 
 theorem oauth_skipped_for_unplaced_auth_url :
-    let st := run true wPlacementTypo [0] [0]
+    let st := run vOAuth wPlacementTypo [0] [0]
     (obsOf wPlacementTypo st 0) = ⟨[], [], []⟩ ∧
     oracle wPlacementTypo st.binds [obsOf wPlacementTypo st 0]
       = some "oauth-skipped-for-auth-url-with-invalid-placement" := by
   decide +kernel
 
 /-- the full statement fails for the repaired variant too (frontend placement) -/
-theorem fail_closed_fails : ¬ FailClosed true := by
+theorem fail_closed_fails : ¬ FailClosed vOAuth := by
   intro h
   have := h wFrontBegin [0] [0] 0 _ (by decide) rfl (by decide)
   revert this
@@ -251,18 +255,19 @@ theorem fail_closed_fails : ¬ FailClosed true := by
 is intercepted through its own service; an exhausted range denies -/
 example : let w := mkWorld 14415 14416 [mkPath 0 0 "h0.local#/a" "beg" "h0.local#/a/sub" (.val (uOk 1 "/auth")) .absent .absent]
     w.paths.all declared = true ∧
-    (obsOf w (run true w [0] [0]) 0).rb = [.icpt (.proxy 14415) "/auth" "", .unless false ""] ∧
-    (run true w [0] [0]).binds = [⟨14415, 1⟩] := by decide +kernel
+    (obsOf w (run vOAuth w [0] [0]) 0).rb = [.icpt (.proxy 14415) "/auth" "", .unless false ""] ∧
+    (run vOAuth w [0] [0]).binds = [⟨14415, 1⟩] := by decide +kernel
 example : let w := mkWorld 14415 14414 [mkPath 0 0 "h0.local#/a" "beg" "h0.local#/a/sub" (.val (uOk 1 "/auth")) .absent .absent]
-    (obsOf w (run true w [0] [0]) 0).rb = [.deny] := by decide +kernel
+    (obsOf w (run vOAuth w [0] [0]) 0).rb = [.deny] := by decide +kernel
 
 /-! ## facts regenerated from the Go sources and the template -/
 
 /-- `setAuthExternal` arms the deny first and clears it once, after the last early return; the
 clean-up between the two acquire attempts uses `BuildUsedAuthBackends`, which reads backend paths
-only; auth-url is built before oauth and hosts before backends; `buildBackendOAuth` is one of the
-two variants of the model; the frontend scope condition is the one `frontCond` models; the
-allocator compares what `scan`/`acquire` compare -/
+only; auth-url is built before oauth and hosts before backends; `buildBackendOAuth` is the
+repaired variant of the model (own auth-url, deny restored); the clean-up is one of the two
+modelled variants; the frontend scope condition is the one `frontCond` models; the allocator
+compares what `scan`/`acquire` compare -/
 theorem facts_c18 :
     Facts.c18SetAuthFirstStmt = "auth.AlwaysDeny = true" ∧
     Facts.c18SetAuthDenyAssigns = ["auth.AlwaysDeny = true", "auth.AlwaysDeny = false"] ∧
@@ -276,8 +281,12 @@ theorem facts_c18 :
     Facts.c18FrontCondFormat = ["{ var(req.base) -m str %s '%s' }"] ∧
     Facts.c18AcquireConds = ["bind.Backend == backend", "freePort == bind.LocalPort", "freePort > proxy.RangeEnd",
       "proxy.BindList[i].LocalPort < proxy.BindList[j].LocalPort"] ∧
-    ((Facts.c18OAuthPrecedenceReads = "d.mapper" ∧ Facts.c18OAuthPrecedenceAssigns = ["path.AuthExternal.AlwaysDeny = false"] ∧ currentFixed = false) ∨
-     (Facts.c18OAuthPrecedenceReads = "config" ∧ Facts.c18OAuthPrecedenceAssigns = ["path.AuthExternal.AlwaysDeny = denied"] ∧ currentFixed = true)) := by
+    Facts.c18OAuthPrecedenceReads = "config" ∧
+    Facts.c18OAuthPrecedenceAssigns = ["path.AuthExternal.AlwaysDeny = denied"] ∧
+    Facts.c18OAuthDenyAssigns = ["path.AuthExternal.AlwaysDeny = true", "path.AuthExternal.AlwaysDeny = denied", "path.AuthExternal.AlwaysDeny = false"] ∧
+    currentVariant.oauthOwn = true ∧
+    ((Facts.c18SetAuthUsedFrontReads = [] ∧ currentVariant = vOAuth) ∨
+     (Facts.c18SetAuthUsedFrontReads = ["hpath.AuthExt.AuthBackendName"] ∧ currentVariant = vBoth)) := by
   decide +kernel
 
 end HapVerif.C18
